@@ -367,26 +367,40 @@ package vm
 //@   callpre (*vm.VM).execNot opcode == OpNot
 //@   callpre (*vm.VM).execNeg opcode == OpNeg
 
-// ---- VM built-ins (C04): no argument vector makes a built-in panic (strict)
+// ---- VM built-ins (C04): no argument vector makes a built-in panic (strict); (C02) held to the same
+// ---- built-in oracle as the interpreter's (contracts/lang.spec)
 //@ func (*VM).registerBuiltins$1
 //@   strict
 //@ func (*VM).registerBuiltins$2
 //@   strict
 //@ func (*VM).registerBuiltins$3
 //@   strict
+//@   ensures len(args) == 1 ==> ((result1 == nil) == lenOK(kindV(args[0])))
+//@   ensures result1 == nil && kindV(args[0]) == 3 ==> typeis(result, IntValue) && result.(IntValue).Val == runecount(args[0].(StringValue).Val)
+//@   ensures result1 == nil && kindV(args[0]) == 5 ==> typeis(result, IntValue) && result.(IntValue).Val == len(args[0].(ArrayValue).Val)
+//@   ensures result1 == nil && kindV(args[0]) == 6 ==> typeis(result, IntValue) && result.(IntValue).Val == len(args[0].(ObjectValue).Val)
 //@ func (*VM).registerBuiltins$4
 //@   strict
+//@   ensures len(args) == 1 ==> ((result1 == nil) == (kindV(args[0]) == 3))
+//@   ensures result1 == nil ==> typeis(result, StringValue) && result.(StringValue).Val == libcall(strings.ToUpper, args[0].(StringValue).Val)
 //@ func (*VM).registerBuiltins$5
 //@   strict
+//@   ensures len(args) == 1 ==> ((result1 == nil) == (kindV(args[0]) == 3))
+//@   ensures result1 == nil ==> typeis(result, StringValue) && result.(StringValue).Val == libcall(strings.ToLower, args[0].(StringValue).Val)
 //@ func (*VM).registerBuiltins$6
 //@   strict
+//@   ensures len(args) == 1 ==> ((result1 == nil) == (kindV(args[0]) == 3))
+//@   ensures result1 == nil ==> typeis(result, StringValue) && result.(StringValue).Val == libcall(strings.TrimSpace, args[0].(StringValue).Val)
 //@ func (*VM).registerBuiltins$7
 //@   strict
 //@ func (*VM).registerBuiltins$8
 //@   strict
 //@ func (*VM).registerBuiltins$9
 //@   strict
+//@   ensures len(args) == 2 ==> ((result1 == nil) == (kindV(args[0]) == 3 && kindV(args[1]) == 3))
+//@   ensures result1 == nil ==> typeis(result, BoolValue) && result.(BoolValue).Val == libcall(strings.Contains, args[0].(StringValue).Val, args[1].(StringValue).Val)
 //@ func (*VM).registerBuiltins$10
 //@   strict
 //@ func (*VM).registerBuiltins$11
 //@   strict
+//@   ensures len(args) == 3 && kindV(args[0]) == 3 && kindV(args[1]) == 1 && kindV(args[2]) == 1 ==> ((result1 == nil) == subOK(args[0].(StringValue).Val, args[1].(IntValue).Val, args[2].(IntValue).Val))
